@@ -753,6 +753,10 @@ func (fx *Fx) specCall(env *SpecEnv, e *SCall) Val {
 				ch = Val{T: "(i_val " + ch.T + ")", S: "Int"}
 			}
 			return Val{T: evTerm(id.Name, ch.T, fx.specBox(env, v), "", ""), S: "Ev"}
+		case "WgAdd":
+			return Val{T: evTerm("WgAdd", arg(0).T, "", "", arg(1).T), S: "Ev"}
+		case "WgDone", "WgWait":
+			return Val{T: evTerm(id.Name, arg(0).T, "", "", ""), S: "Ev"}
 		case "Call", "Spawn":
 			// Call(code, a0 [, a1]) / Spawn(code, a0 [, a1])
 			a0, a1 := "", ""
